@@ -84,6 +84,9 @@ class C18(runner.Check):
         add("structure", 2, 1, "R35", "I", False, cost=4)
         add("structure", 1, 2, "I", "R35", False, cost=4)
         add("structure", 2, 1, "R35", "I", True, cost=4)
+        # history: a user-supplied linear estimator reused across two fits must be refitted on the new data
+        add("refit-user-estimator", 2, 1, "R35", "I", True, cost=4)
+        add("refit-user-estimator", 1, 2, "I", "R35", True, cost=4)
         if tier == "thorough":
             for proj in (False, True):
                 add("structure", 3, 2, "H122", "R35", proj, cost=20)
@@ -154,6 +157,21 @@ class C18(runner.Check):
             Vxf = linalg.frame(m, cfg["Vx"])
             mm, tt = linalg._matmul, linalg._T
             linalg.HINTS[:] = [Vxf, Qf, mm(tt(Qf), Vxf), mm(tt(Vxf), Qf), mm(Qf, Vxf), tt(Qf)]
+        if mode == "refit-user-estimator":
+            le = LinRegStub()
+            est = OrthogonalRegression(use_orthogonal_projector=True, linear_estimator=le)
+            Xa = arrays.exact([[(2 * i + j) % 3 - 1 for j in range(m)] for i in range(n)])
+            Ya = arrays.exact([[(i * (j + 2)) % 4 - 1 for j in range(p)] for i in range(n)])
+            linalg.HINTS[:] = list(linalg.HINTS) + [fr for nm, fr in linalg.library(max(m, p))]
+            try:
+                est.fit(Xa, Ya)
+            except core.Unsupported:
+                pass  # the first fit is only there to leave state behind
+            linalg.HINTS[:] = [linalg.frame(m, cfg["Vx"]), linalg.frame(p, cfg["Vy"])]
+            est.fit(X, Y)
+            fresh = OrthogonalRegression(use_orthogonal_projector=True, linear_estimator=LinRegStub()).fit(X, Y)
+            P.require_all(sc.arr_eq(est.coef_, fresh.coef_), "refit-with-user-estimator==fresh-fit")
+            return {"ok": True}
         est = OrthogonalRegression(use_orthogonal_projector=proj).fit(X, Y)
         A = np.asarray(est.coef_, dtype=object).T.view(SymArray)  # maps (padded) inputs to (padded) outputs: prediction = x @ A
         d = A.shape[0]
@@ -202,6 +220,18 @@ class C18(runner.Check):
         if mode == "recover":
             Q = np.array(linalg.frame(m, cfg["Q"]), dtype=float)
             Y = X @ Q
+        if mode == "refit-user-estimator":
+            from sklearn.linear_model import LinearRegression
+
+            Xa = np.array([[(2 * i + j) % 3 - 1 for j in range(m)] for i in range(n)], dtype=float)
+            Ya = np.array([[(i * (j + 2)) % 4 - 1 for j in range(p)] for i in range(n)], dtype=float)
+            est = OrthogonalRegression(use_orthogonal_projector=True, linear_estimator=LinearRegression())
+            est.fit(Xa, Ya)
+            est.fit(X, Y)
+            fresh = OrthogonalRegression(use_orthogonal_projector=True, linear_estimator=LinearRegression()).fit(X, Y)
+            if not np.allclose(est.coef_, fresh.coef_, atol=1e-7):
+                viol.append(("refit-with-user-estimator==fresh-fit", {"refit": np.asarray(est.coef_).tolist(), "fresh": np.asarray(fresh.coef_).tolist()}))
+            return {"ok": True}, viol
         est = OrthogonalRegression(use_orthogonal_projector=proj).fit(X, Y)
         A = np.asarray(est.coef_).T
         d = A.shape[0]
